@@ -238,7 +238,10 @@ func runCase(h *hx.H, o caseOpts, src string) sexp.Node {
 		sexp.L(sexp.Sym("canmerge"), sexp.Uint64(sA.calls["validateFieldsInSetCanMerge"])),
 		sexp.L(sexp.Sym("sameshape"), sexp.Uint64(sA.calls["validateSameResponseShape"])),
 		sexp.L(sexp.Sym("addfs"), sexp.Uint64(sA.calls["addFieldSelections"])),
-		sexp.L(sexp.Sym("addfscd"), sexp.Uint64(sA.calls["addFieldSelectionsWithCycleDetection"])))
+		sexp.L(sexp.Sym("addfscd"), sexp.Uint64(sA.calls["addFieldSelectionsWithCycleDetection"])),
+		sexp.L(sexp.Sym("runes"), sexp.Uint64(sA.calls["scan.consumeRune"])),
+		sexp.L(sexp.Sym("peeks"), sexp.Uint64(sA.calls["scan.peek"])),
+		sexp.L(sexp.Sym("decodes"), sexp.Uint64(sA.calls["scan.readNextRune"])))
 	text := sexp.Sym("none")
 	if len(src) <= 400 {
 		text = sexp.Str(src)
